@@ -15,6 +15,7 @@ RULE = ("(a) generated evaluation histories (single point, batch, empty batch, b
         "evaluation, boxes pre-split at declared kinks; (c) in-situ cache coherence after a real adaptive run. distinct = "
         "(class, dimension, digest of op kinds / box); non-trivial = history with >=1 batch and >=1 repeated point, or integral "
         "over a box that is not the unit cube / is cut by a kink")
+RULE += (" " + 'Evaluation points include coordinates exactly on the declared break points of the class (borders / mid points).')
 REQUIRED = ["value_single", "value_batch", "shape_single", "shape_batch", "empty_batch", "value_vectorized", "counter",
             "analytic_integral", "nocache_single", "cache_coherence_after_run"]
 MIN_NONTRIVIAL = {"quick": 300, "thorough": 3000}
